@@ -185,11 +185,11 @@ Definition signaling_nan_bits : N := 9219994337134247936.   (* 0x7ff400000000000
 Definition max_int64 : N := 9223372036854775807.
 Definition two64 : N := 18446744073709551616.
 
-(* BuilderEventReceiver.OnNegativeInt: "negZero" is the constant expression
-   -float64(0), which Go evaluates exactly: it is +0.  Magnitudes beyond int64
-   become a negated big.Int. *)
+(* BuilderEventReceiver.OnNegativeInt: -0 is the float64 negative zero
+   (math.Copysign(0, -1)); magnitudes beyond int64 become a negated big.Int. *)
+Definition neg_zero_bits : N := 9223372036854775808.        (* 0x8000000000000000 *)
 Definition negint_scalar (n : N) : scalar :=
-  if n =? 0 then SFloat 0
+  if n =? 0 then SFloat neg_zero_bits
   else if n <=? max_int64 then SInt (- Z.of_N n)
   else SBigInt (Some (- Z.of_N n)%Z).
 
@@ -267,35 +267,35 @@ Section Lib.
     marked : list (bytes * uval);             (* ReferenceFiller.markedValues *)
     pending : list (bytes * setter);          (* unresolvedReferences, in registration order *)
     next : N;                                 (* fresh identities *)
-    cdata : bytes; crem : N; cmore : bool; ccb : cbkind;     (* chunkedData, chunkRemainingLength, moreChunksFollow, callback *)
+    cdata : bytes; crem : N; cmore : bool; ccb : cbkind; cbits : N;
+                                              (* chunkedData, chunkRemainingLength, moreChunksFollow, callback,
+                                                 arrayElementBitWidth *)
     rt_name : bytes;                          (* recordTypeName *)
-    rt_back : list scalar; rt_len : nat; rt_cap : nat;       (* Context.recordType: backing array, len, cap *)
-    rt_old : list (list scalar);              (* backing arrays abandoned by append *)
-    rt_tab : list (bytes * (nat * nat));      (* recordTypes: name -> (backing array, len) *)
+    rt_keys : list scalar;                    (* Context.recordType: the keys of the type being declared *)
+    rt_tab : list (bytes * list scalar);      (* recordTypes *)
   }.
 
   Definition init_state : mstate :=
-    MS [FTop] (TSlot UNil) [] [] 1 [] 0 false CBNone [] [] 0 0 [] [].
+    MS [FTop] (TSlot UNil) [] [] 1 [] 0 false CBNone 0 [] [] [].
 
   Definition set_stack (st : mstate) (s : list frame) : mstate :=
-    MS s (tobj st) (marked st) (pending st) (next st) (cdata st) (crem st) (cmore st) (ccb st)
-       (rt_name st) (rt_back st) (rt_len st) (rt_cap st) (rt_old st) (rt_tab st).
+    MS s (tobj st) (marked st) (pending st) (next st) (cdata st) (crem st) (cmore st) (ccb st) (cbits st)
+       (rt_name st) (rt_keys st) (rt_tab st).
   Definition set_tobj (st : mstate) (t : topobj) : mstate :=
-    MS (stack st) t (marked st) (pending st) (next st) (cdata st) (crem st) (cmore st) (ccb st)
-       (rt_name st) (rt_back st) (rt_len st) (rt_cap st) (rt_old st) (rt_tab st).
+    MS (stack st) t (marked st) (pending st) (next st) (cdata st) (crem st) (cmore st) (ccb st) (cbits st)
+       (rt_name st) (rt_keys st) (rt_tab st).
   Definition set_refs (st : mstate) (m : list (bytes * uval)) (p : list (bytes * setter)) : mstate :=
-    MS (stack st) (tobj st) m p (next st) (cdata st) (crem st) (cmore st) (ccb st)
-       (rt_name st) (rt_back st) (rt_len st) (rt_cap st) (rt_old st) (rt_tab st).
+    MS (stack st) (tobj st) m p (next st) (cdata st) (crem st) (cmore st) (ccb st) (cbits st)
+       (rt_name st) (rt_keys st) (rt_tab st).
   Definition bump (st : mstate) : mstate :=
-    MS (stack st) (tobj st) (marked st) (pending st) (next st + 1) (cdata st) (crem st) (cmore st) (ccb st)
-       (rt_name st) (rt_back st) (rt_len st) (rt_cap st) (rt_old st) (rt_tab st).
-  Definition set_chunk (st : mstate) (d : bytes) (r : N) (m : bool) (cb : cbkind) : mstate :=
-    MS (stack st) (tobj st) (marked st) (pending st) (next st) d r m cb
-       (rt_name st) (rt_back st) (rt_len st) (rt_cap st) (rt_old st) (rt_tab st).
-  Definition set_rt (st : mstate) (name : bytes) (back : list scalar) (len cap : nat)
-             (old : list (list scalar)) (tab : list (bytes * (nat * nat))) : mstate :=
-    MS (stack st) (tobj st) (marked st) (pending st) (next st) (cdata st) (crem st) (cmore st) (ccb st)
-       name back len cap old tab.
+    MS (stack st) (tobj st) (marked st) (pending st) (next st + 1) (cdata st) (crem st) (cmore st) (ccb st) (cbits st)
+       (rt_name st) (rt_keys st) (rt_tab st).
+  Definition set_chunk (st : mstate) (d : bytes) (r : N) (m : bool) (cb : cbkind) (bits : N) : mstate :=
+    MS (stack st) (tobj st) (marked st) (pending st) (next st) d r m cb bits
+       (rt_name st) (rt_keys st) (rt_tab st).
+  Definition set_rt (st : mstate) (name : bytes) (keys : list scalar) (tab : list (bytes * list scalar)) : mstate :=
+    MS (stack st) (tobj st) (marked st) (pending st) (next st) (cdata st) (crem st) (cmore st) (ccb st) (cbits st)
+       name keys tab.
 
   (* a step either succeeds or panics; the state at the panic decides what
      ArtificiallyTerminate does afterwards *)
@@ -442,14 +442,8 @@ Section Lib.
         match sc with
         | SNull | SCustomBin _ _ | SCustomText _ _ | SMedia _ _ => RPanic here
         | _ =>
-          (* Context.AddRecordTypeKey: append to the shared backing array *)
-          if (rt_len st <? rt_cap st)%nat then
-            let back := firstn (rt_len st) (rt_back st) ++ sc :: skipn (S (rt_len st)) (rt_back st) in
-            ROk (set_rt here (rt_name st) back (S (rt_len st)) (rt_cap st) (rt_old st) (rt_tab st))
-          else
-            let cap := match rt_cap st with O => 1%nat | c => (2 * c)%nat end in
-            ROk (set_rt here (rt_name st) (firstn (rt_len st) (rt_back st) ++ [sc]) (S (rt_len st)) cap
-                        (rt_old st ++ [rt_back st]) (rt_tab st))
+          (* Context.AddRecordTypeKey (the key is copied; every record type has its own slice) *)
+          ROk (set_rt here (rt_name st) (rt_keys st ++ [sc]) (rt_tab st))
         end
     | FMarker id isc =>
         (* object := child.BuildFromXxx(...); onObjectFinished: unless a container was begun
@@ -524,9 +518,8 @@ Section Lib.
     | FMap id kvs _ _ _ => notify_done (UMap id kvs) (set_stack st (tl (above ++ fr :: below)))
     | FRecType =>
         (* Context.EndRecordType *)
-        let gen := length (rt_old st) in
-        let tab := (rt_name st, (gen, rt_len st)) :: filter (fun '(n, _) => negb (bytes_eqb n (rt_name st))) (rt_tab st) in
-        ROk (set_rt (set_stack st (tl (above ++ fr :: below))) (rt_name st) (rt_back st) (rt_len st) (rt_cap st) (rt_old st) tab)
+        let tab := (rt_name st, rt_keys st) :: filter (fun '(n, _) => negb (bytes_eqb n (rt_name st))) (rt_tab st) in
+        ROk (set_rt (set_stack st (tl (above ++ fr :: below))) (rt_name st) (rt_keys st) tab)
     | FMarker id isc =>
         match below with
         | child :: below' => recv_end (above ++ [FMarker id isc]) child below' st
@@ -602,14 +595,19 @@ Section Lib.
         else RPanic st
     end.
 
-  Definition on_chunk (n : N) (more : bool) (st : mstate) : res :=
-    let st1 := set_chunk st (cdata st) n more (ccb st) in
-    if negb more && (n =? 0) then fire st1 else ROk st1.
+  (* common.ElementCountToByteCount, uint64 arithmetic *)
+  Definition elem_byte_count (bits count : N) : N :=
+    let bc := ((count * bits) mod two64) / 8 in
+    if (bits =? 1) && negb (N.land count 7 =? 0) then (bc + 1) mod two64 else bc.
 
-  (* chunkRemainingLength counts elements but is decremented by bytes, modulo 2^64 *)
+  Definition on_chunk (n : N) (more : bool) (st : mstate) : res :=
+    let st1 := set_chunk st (cdata st) (elem_byte_count (cbits st) n) more (ccb st) (cbits st) in
+    if negb more && (elem_byte_count (cbits st) n =? 0) then fire st1 else ROk st1.
+
+  (* chunkRemainingLength is in bytes (uint64 arithmetic) *)
   Definition on_data (d : bytes) (st : mstate) : res :=
     let r := (crem st + two64 - (N.of_nat (length d)) mod two64) mod two64 in
-    let st1 := set_chunk st (cdata st ++ d) r (cmore st) (ccb st) in
+    let st1 := set_chunk st (cdata st ++ d) r (cmore st) (ccb st) (cbits st) in
     if negb (cmore st) && (r =? 0) then fire st1 else ROk st1.
 
   (* ---- one event ---- *)
@@ -636,9 +634,11 @@ Section Lib.
     | EMedia mt data => on_scalar (SMedia mt data) st
     | ECustomBin ct data => on_scalar (SCustomBin ct data) st
     | ECustomText ct data => on_scalar (SCustomText ct data) st
-    | EArrayBegin t => ROk (set_chunk st [] (crem st) (cmore st) (CBArray t))
-    | EMediaBegin mt => ROk (set_chunk st [] (crem st) (cmore st) (CBMedia mt))
-    | ECustomBegin t ct => ROk (set_chunk st [] (crem st) (cmore st) (CBCustom t ct))
+    | EArrayBegin t =>
+        (* arrayType.ElementSize() indexes a table of AT_Count entries *)
+        if t <? AT_Count then ROk (set_chunk st [] (crem st) (cmore st) (CBArray t) (elem_bits t)) else RPanic st
+    | EMediaBegin mt => ROk (set_chunk st [] (crem st) (cmore st) (CBMedia mt) 8)
+    | ECustomBegin t ct => ROk (set_chunk st [] (crem st) (cmore st) (CBCustom t ct) 8)
     | EArrayChunk n more => on_chunk n more st
     | EArrayData d => on_data d st
     | EList | EMap | ENode | EEdge =>
@@ -653,16 +653,11 @@ Section Lib.
         | [] => RPanic st
         end
     | ERecordType id =>
-        (* Context.BeginRecordType: recordType = recordType[:0] keeps the backing array *)
-        ROk (set_rt (set_stack st (FRecType :: stack st)) id (rt_back st) 0 (rt_cap st) (rt_old st) (rt_tab st))
+        (* Context.BeginRecordType *)
+        ROk (set_rt (set_stack st (FRecType :: stack st)) id [] (rt_tab st))
     | ERecord id =>
         (* Context.BeginRecord: the current builder starts a map; the map builder is wrapped *)
-        let keys :=
-          match find (fun '(n, _) => bytes_eqb n id) (rt_tab st) with
-          | Some (_, (gen, len)) =>
-              firstn len (if (gen =? length (rt_old st))%nat then rt_back st else nth gen (rt_old st) [])
-          | None => []
-          end in
+        let keys := match find (fun '(n, _) => bytes_eqb n id) (rt_tab st) with Some (_, ks) => ks | None => [] end in
         match stack st with
         | fr :: below =>
             rbind (recv_begin KMap [] fr below st)
@@ -696,9 +691,13 @@ Section Lib.
   Definition built (st : mstate) : uval := dehole (built_raw st).
 
   (* ---- OnError: Context.ArtificiallyTerminate ----
-     for len(builderStack) > 1 { CurrentBuilder.BuildArtificiallyEndContainer(ctx) }.
-     Slice, map, record and record-type builders end their container; the
-     others do nothing, so the loop never ends.  None = does not terminate. *)
+     for len(builderStack) > 1 {
+       depth := len(builderStack)
+       CurrentBuilder.BuildArtificiallyEndContainer(ctx)
+       if len(builderStack) >= depth { UnstackBuilder() }
+     }
+     Slice, map, record and record-type builders end their container (a marker
+     passes the call on to its child); the others do nothing and are dropped. *)
   Fixpoint art_end_target (fr : frame) (below : list frame) : option frame :=
     match fr with
     | FMarker _ _ => match below with child :: r => art_end_target child r | [] => None end
@@ -706,7 +705,7 @@ Section Lib.
     | _ => None
     end.
 
-  (* Some true = terminated, Some false = a panic escaped from OnError, None = spins forever *)
+  (* Some true = terminated, Some false = a panic escaped from OnError, None = out of fuel *)
   Fixpoint terminate (fuel : nat) (st : mstate) : option bool :=
     match fuel with
     | O => None
@@ -714,14 +713,15 @@ Section Lib.
       match stack st with
       | [] | [_] => Some true
       | fr :: below =>
-        match art_end_target fr below with
-        | None => None
-        | Some _ =>
-          let r := recv_end [] fr below st in
-          match r with
-          | ROk st1 => terminate f st1
-          | RPanic _ => Some false
-          end
+        let r := match art_end_target fr below with
+                 | Some _ => recv_end [] fr below st
+                 | None => ROk st
+                 end in
+        match r with
+        | ROk st1 =>
+            terminate f (if (length (fr :: below) <=? length (stack st1))%nat
+                         then set_stack st1 (tl (stack st1)) else st1)
+        | RPanic _ => Some false
         end
       end
     end.
@@ -840,7 +840,12 @@ Inductive dv :=
 | DList (l : list dv) | DMap (kvs : list (dv * dv)) | DNode (v : dv) (ch : list dv) | DEdge (a b c : dv)
 | DRecord (name : bytes) (vals : list dv) | DMark (id : bytes) (v : dv) | DRef (id : bytes).
 
-Definition float_dv (b : N) : dv := if f64_is_nan b then DNan (negb (f64_quiet_bit b)) else DFloat b.
+(* negative zero is one datum, whether spelled as the integer -0 or as the float -0.0
+   (the encoders write both as "-0") *)
+Definition float_dv (b : N) : dv :=
+  if f64_is_nan b then DNan (negb (f64_quiet_bit b))
+  else if b =? neg_zero_bits then DNegZero
+  else DFloat b.
 Definition dec_dv (d : dfloat) : dv := match d with DQNan => DNan false | DSNan => DNan true | _ => DDec d end.
 Definition bigdec_dv (d : dfloat) : dv := match d with DQNan => DNan false | DSNan => DNan true | _ => DBigDec d end.
 Definition array_dv (t : arrty) (data : bytes) : dv :=
@@ -1200,6 +1205,67 @@ Fixpoint uval_eqb (a b : uval) : bool :=
   | _, _ => false
   end.
 
+(* ---- reading back what the iterator emits: value events, lists, maps, nodes, and edges
+   without an end-container event (iterateEdge) ---- *)
+Fixpoint pair_up (l : list dv) : option (list (dv * dv)) :=
+  match l with
+  | [] => Some []
+  | k :: v :: r => match pair_up r with Some kvs => Some ((k, v) :: kvs) | None => None end
+  | _ => None
+  end.
+
+Fixpoint parse_val (fuel : nat) (es : list event) : option (dv * list event) :=
+  match fuel with
+  | O => None
+  | S f =>
+    let parse_seq := fix go (n : nat) (es : list event) : option (list dv * list event) :=
+      match n with
+      | O => None
+      | S m =>
+        match es with
+        | EEnd :: r => Some ([], r)
+        | _ => match parse_val f es with
+               | Some (d, r) => match go m r with Some (ds, r') => Some (d :: ds, r') | None => None end
+               | None => None
+               end
+        end
+      end in
+    match es with
+    | EList :: r => match parse_seq (S (length r)) r with Some (ds, r') => Some (DList ds, r') | None => None end
+    | EMap :: r =>
+        match parse_seq (S (length r)) r with
+        | Some (ds, r') => match pair_up ds with Some kvs => Some (DMap kvs, r') | None => None end
+        | None => None
+        end
+    | ENode :: r =>
+        match parse_seq (S (length r)) r with
+        | Some (d :: ds, r') => Some (DNode d ds, r')
+        | _ => None
+        end
+    | EEdge :: r =>
+        match parse_val f r with
+        | Some (a, r1) =>
+          match parse_val f r1 with
+          | Some (b, r2) => match parse_val f r2 with Some (c, r3) => Some (DEdge a b c, r3) | None => None end
+          | None => None
+          end
+        | None => None
+        end
+    | e :: r => match event_dv e with Some d => Some (d, r) | None => None end
+    | [] => None
+    end
+  end.
+
+Definition parse_iter (es : list event) : option dv :=
+  match es with
+  | EBeginDoc :: EVersion _ :: r =>
+      match parse_val (S (length r)) r with
+      | Some (d, [EEndDoc]) => Some d
+      | _ => None
+      end
+  | _ => None
+  end.
+
 (* ------------------------------------------------------------------ *)
 (* Correspondence cases                                                 *)
 (* ------------------------------------------------------------------ *)
@@ -1236,11 +1302,13 @@ Definition build_case_ok (c : build_case) : bool :=
         match iter with
         | None => true
         | Some ies =>
-          (* with at most one entry per map the event order is determined; otherwise only the
-             shape check below is made by the harness on its side *)
+          (* with at most one entry per map the event order is determined and the events must be
+             the model's; in every case the data read back from the iterator's events must be to_dv *)
           match iterate_doc v with
           | None => match ies with [] => true | _ => false end      (* [] = the iterator panicked *)
-          | Some mes => if has_big_map v then true else list_eqb event_eqb mes ies
+          | Some mes =>
+              (if has_big_map v then true else list_eqb event_eqb mes ies) &&
+              match parse_iter ies with Some d => dv_eqb (to_dv v) d | None => false end
           end
         end
     | Ok _, ICyclic => built_cyclic uc tc es
@@ -1257,26 +1325,27 @@ Definition build_case_ok (c : build_case) : bool :=
 Inductive pos := PGen | PKey | PNodeVal.
 Definition is_key (p : pos) : bool := match p with PKey => true | _ => false end.
 
-(* chunk events through which Context.AddArrayData completes exactly once, at the
-   last event (elements of one byte): the data delivered *)
-Fixpoint chunks_ok (es : list event) (rem : N) (more : bool) (acc : bytes) : option bytes :=
+(* chunk events through which Context.AddArrayData completes exactly once, at the last
+   event, for elements of [bits] bits: the data delivered *)
+Fixpoint chunks_ok (bits : N) (es : list event) (rem : N) (more : bool) (acc : bytes) : option bytes :=
   match es with
   | EArrayChunk n m :: r =>
-      if two64 <=? n then None
-      else if negb m && (n =? 0) then match r with [] => Some acc | _ => None end
-      else chunks_ok r n m acc
+      if negb m && (elem_byte_count bits n =? 0) then match r with [] => Some acc | _ => None end
+      else chunks_ok bits r (elem_byte_count bits n) m acc
   | EArrayData d :: r =>
       let k := N.of_nat (length d) in
       if rem <? k then None
       else if negb more && (rem - k =? 0) then match r with [] => Some (acc ++ d) | _ => None end
-      else chunks_ok r (rem - k) more (acc ++ d)
+      else chunks_ok bits r (rem - k) more (acc ++ d)
   | _ => None
   end.
-Definition chunked_data (body : list event) : option bytes :=
+Definition chunked_data (bits : N) (body : list event) : option bytes :=
   match body with
-  | EArrayChunk _ _ :: _ => chunks_ok body 0 true []
+  | EArrayChunk _ _ :: _ => chunks_ok bits body 0 true []
   | _ => None
   end.
+Definition abegin_bits (b : abegin) : N :=
+  match b with ABArray t => nth (N.to_nat t) array_elem_bits 0 | _ => 8 end.
 
 Fixpoint mem_id (id : bytes) (ids : list bytes) : bool :=
   match ids with [] => false | i :: r => bytes_eqb i id || mem_id id r end.
@@ -1328,7 +1397,7 @@ Section Fragment.
   Definition leaf_ok (p : pos) (e : event) : bool :=
     match e with
     | EBool _ | ETrue | EFalse | EPosInt _ | EInt _ => true
-    | ENegInt n => negb (n =? 0) && (negb (is_key p) || (n <=? max_int64))
+    | ENegInt n => negb (is_key p) || (negb (n =? 0) && (n <=? max_int64))
     | EUid b => (length b =? 16)%nat
     | ETime s => time_ok (is_key p) s
     | EArray t _ data => if is_key p then t =? AT_String else array_ok t data
@@ -1338,14 +1407,13 @@ Section Fragment.
     | _ => false
     end.
 
-  (* arrays in chunks: one-byte elements only (strings, resource identifiers, bytes, media) *)
+  (* arrays in chunks *)
   Definition chunked_ok (p : pos) (b : abegin) (body : list event) : bool :=
-    match chunked_data body, chunk_data 1 body 0 false [] with
+    match chunked_data (abegin_bits b) body, chunk_data (abegin_elem_bytes b) body 0 false [] with
     | Some data, Some data' =>
         bytes_eqb data data' &&
         match b with
-        | ABArray t => if is_key p then t =? AT_String
-                       else (t =? AT_String) || (t =? AT_Uint8) || ((t =? AT_ResourceID) && url_ok data)
+        | ABArray t => if is_key p then t =? AT_String else array_ok t data
         | ABMedia mt => negb (is_key p) && match mt with [] => false | _ => true end
         | ABCustom _ _ => false
         end
@@ -1411,3 +1479,49 @@ Section Fragment.
     | _, _ => false
     end.
 End Fragment.
+
+(* the key data of the record types declared in front of a document *)
+Definition rts_data (rts : list rtdecl) : option (list (bytes * list dv)) :=
+  omap2 (fun d : rtdecl => match omap2 sem (snd d) with Some ks => Some (fst d, ks) | None => None end) rts.
+
+(* data that the iterator can emit as a valid document: no edge (iterateEdge omits the
+   end-container event), no empty media type (the iterator refuses it); arrays of numbers *)
+Fixpoint dv_plain (d : dv) : bool :=
+  match d with
+  | DEdge _ _ _ | DRecord _ _ | DMark _ _ | DRef _ => false
+  | DMedia mt _ => match mt with [] => false | _ => true end
+  | DArr t _ => negb ((t =? AT_String) || (t =? AT_ResourceID) || (t =? AT_ReferenceRemote))
+  | DList l => forallb dv_plain l
+  | DMap kvs => forallb (fun '(a, b) => dv_plain a && dv_plain b) kvs
+  | DNode a ch => dv_plain a && forallb dv_plain ch
+  | _ => true
+  end.
+
+(* ------------------------------------------------------------------ *)
+(* Correspondence of the fragment with the validator                    *)
+(* ------------------------------------------------------------------ *)
+
+Require CE.Model.Rules.
+
+(* A generated document of the fragment: its events, the same document as a tree, the observed
+   library conversions, and whether the validator of the implementation accepted the events.
+   Checked: the tree flattens to the events (comments and padding aside), it lies in [supported6],
+   it has data whose erasure the iterator can emit ([dv_plain]), and the model of the validator agrees with the implementation about it
+   (the generator keeps to what the validator accepts; [supported6] itself is more liberal,
+   e.g. it admits a marker inside a marked container). *)
+Inductive frag_case :=
+| FragCase (es : list event) (t : dt)
+           (urls : list (bytes * option bytes)) (times : list (bytes * option (bytes * bytes)))
+           (impl_accepts : bool).
+
+Definition frag_case_ok (c : frag_case) : bool :=
+  match c with
+  | FragCase es t urls times acc =>
+      list_eqb event_eqb (strip es) (doc_events [] t)
+      && supported6 (url_of_table urls) (time_of_table times) [] t
+      && match sem t with
+         | Some d => match erase_doc [] d with Some d' => dv_plain d' | None => false end
+         | None => false
+         end
+      && Bool.eqb (Rules.accepts_document Rules.default_rcfg es) acc
+  end.
